@@ -707,6 +707,142 @@ func footprint(ps pkgs, paths []string) {
 	emit("].")
 }
 
+// paramWrites lists, for the package that holds the drivers and procedures (bmc), every place where a function writes THROUGH a
+// parameter other than its receiver - a field, element or pointee of a pointer / slice / map the caller handed in - or
+// re-slices a slice parameter to length zero (p[:0]: appending to that overwrites the caller's elements).  One
+// level of local aliasing (x := p; x.f = ...) is followed.  (function, parameter path, kind: assign / incdec / reslice)
+func paramWrites(ps pkgs, paths []string) {
+	emit("(* writes through parameters other than the receiver (the caller's own values): function, parameter, kind *)")
+	type row struct{ fn, v, kind string }
+	var rows []row
+	var cmdIface *types.Interface
+	if o := ps.get("github.com/gebn/bmc/pkg/ipmi").Types.Scope().Lookup("Command"); o != nil {
+		cmdIface, _ = o.Type().Underlying().(*types.Interface)
+	}
+	for _, path := range paths {
+		p := ps.get(path)
+		short := path[strings.LastIndex(path, "/")+1:]
+		for _, f := range p.Syntax {
+			if strings.HasSuffix(p.Fset.Position(f.Pos()).Filename, "_test.go") || strings.Contains(p.Fset.Position(f.Pos()).Filename, "verif_hooks") {
+				continue
+			}
+			for _, d := range f.Decls {
+				fd, ok := d.(*ast.FuncDecl)
+				if !ok || fd.Body == nil {
+					continue
+				}
+				fname := fd.Name.Name
+				if fd.Recv != nil && len(fd.Recv.List) > 0 {
+					fname = exprString(p, fd.Recv.List[0].Type) + "." + fname
+				}
+				params := map[types.Object]string{}
+				for _, fl := range fd.Type.Params.List {
+					for _, n := range fl.Names {
+						o := p.TypesInfo.Defs[n]
+						if o == nil {
+							continue
+						}
+						// (a command value is the one thing a caller hands over TO BE written: requests are set by the
+						// helpers that walk a repository, the response is decoded into it)
+						if cmdIface != nil && types.Implements(o.Type(), cmdIface) {
+							continue
+						}
+						switch o.Type().Underlying().(type) {
+						case *types.Pointer, *types.Slice, *types.Map:
+							params[o] = n.Name
+						}
+					}
+				}
+				if len(params) == 0 {
+					continue
+				}
+				// one level of aliasing: x := p  /  x = p
+				ast.Inspect(fd.Body, func(n ast.Node) bool {
+					if as, ok := n.(*ast.AssignStmt); ok && len(as.Lhs) == len(as.Rhs) {
+						for i, r := range as.Rhs {
+							if id, ok := r.(*ast.Ident); ok {
+								if pn, isp := params[p.TypesInfo.Uses[id]]; isp {
+									if l, ok := as.Lhs[i].(*ast.Ident); ok {
+										if o := p.TypesInfo.Defs[l]; o != nil {
+											params[o] = pn
+										} else if o := p.TypesInfo.Uses[l]; o != nil {
+											if _, self := params[o]; !self {
+												params[o] = pn
+											}
+										}
+									}
+								}
+							}
+						}
+					}
+					return true
+				})
+				rootOf := func(e ast.Expr) (string, bool) {
+					depth := 0
+					for {
+						switch x := e.(type) {
+						case *ast.Ident:
+							if pn, ok := params[p.TypesInfo.Uses[x]]; ok && depth > 0 {
+								return pn, true
+							}
+							return "", false
+						case *ast.IndexExpr:
+							e = x.X
+						case *ast.SelectorExpr:
+							e = x.X
+						case *ast.StarExpr:
+							e = x.X
+						case *ast.ParenExpr:
+							e = x.X
+							continue
+						default:
+							return "", false
+						}
+						depth++
+					}
+				}
+				ast.Inspect(fd.Body, func(n ast.Node) bool {
+					switch x := n.(type) {
+					case *ast.AssignStmt:
+						for _, l := range x.Lhs {
+							if pn, ok := rootOf(l); ok {
+								rows = append(rows, row{short + "." + fname, pn + ":" + exprString(p, l), "assign"})
+							}
+						}
+					case *ast.IncDecStmt:
+						if pn, ok := rootOf(x.X); ok {
+							rows = append(rows, row{short + "." + fname, pn + ":" + exprString(p, x.X), "incdec"})
+						}
+					case *ast.SliceExpr:
+						hi, hiok := evalInt(p, x.High)
+						if id, ok := x.X.(*ast.Ident); ok && x.Low == nil && x.High != nil && hiok && hi == 0 {
+							if pn, isp := params[p.TypesInfo.Uses[id]]; isp {
+								if _, isSlice := p.TypesInfo.TypeOf(id).Underlying().(*types.Slice); isSlice {
+									rows = append(rows, row{short + "." + fname, pn + ":" + exprString(p, x), "reslice"})
+								}
+							}
+						}
+					}
+					return true
+				})
+			}
+		}
+	}
+	sort.Slice(rows, func(i, j int) bool { return rows[i].fn+rows[i].v+rows[i].kind < rows[j].fn+rows[j].v+rows[j].kind })
+	emit("Definition param_writes : list (string * string * string) := [")
+	var out []string
+	seen := map[string]bool{}
+	for _, r := range rows {
+		t := fmt.Sprintf("  (%q, %q, %q)", r.fn, r.v, r.kind)
+		if !seen[t] {
+			seen[t] = true
+			out = append(out, t)
+		}
+	}
+	emit("%s", strings.Join(out, ";\n"))
+	emit("].")
+}
+
 // varKind classifies a package-level variable by what sharing it between goroutines can mean.
 func varKind(t types.Type) string {
 	var hasSync func(t types.Type, depth int) bool
@@ -1222,6 +1358,10 @@ func main() {
 		footprint(ps, []string{"github.com/gebn/bmc", "github.com/gebn/bmc/pkg/ipmi", "github.com/gebn/bmc/pkg/dcmi",
 			"github.com/gebn/bmc/internal/pkg/transport", "github.com/gebn/bmc/pkg/layerexts", "github.com/gebn/bmc/pkg/iana",
 			"github.com/gebn/bmc/internal/pkg/bcd", "github.com/gebn/bmc/internal/pkg/complement"})
+	})
+	emit("")
+	section([]def{{"param_writes", "list (string * string * string)", `[("?", "?", "?")]`}}, func() {
+		paramWrites(ps, []string{"github.com/gebn/bmc"})
 	})
 	if len(warnings) > 0 {
 		emit("(* %d section(s) could not be read from the source *)", len(warnings))
